@@ -33,6 +33,13 @@
 (*   and two seeded mutants (acceptance tests of the machinery):                            *)
 (*     DEV_HeadsOutsideTx = TRUE : heads entry written after the change transaction          *)
 (*     DEV_SpaceTwoTx     = TRUE : space creation split into two transactions                *)
+(*     DEV_AclBatchOneTx  = TRUE : AclList.AddRawRecords writes a batch with one storage.AddAll  *)
+(*                                 and puts the accepted ids into its index before the write,  *)
+(*                                 without taking them back when the write fails               *)
+(*     DEV_SplitBatch     = n > 0: storage.AddAll writes a batch of more than n changes in parts *)
+(*                                 of n, each in its own transaction, heads with the last part  *)
+(*                                 (the batch SIZE matters: programs are parametric in the     *)
+(*                                 number of inserts; the harness drives 1, 2, 65, 130, 300)   *)
 EXTENDS Integers, Sequences, FiniteSets, TLC
 
 CONSTANTS NT,          \* trees; their roots are the change ids 1..NT; tree 1 = space settings tree
@@ -42,6 +49,8 @@ CONSTANTS NT,          \* trees; their roots are the change ids 1..NT; tree 1 = 
           FIX_NamedResult, FIX_AclWriteFirst, FIX_DeferredReset, FIX_LocalRollback, FIX_DeleteAfter,
           FIX_NotifyAfterCommit, FIX_ValidateFirst,
           DEV_HeadsOutsideTx, DEV_SpaceTwoTx,
+          DEV_AclBatchOneTx, \* TRUE: AddRawRecords writes the whole batch with one AddAll and reserves the ids first
+          DEV_SplitBatch, \* 0, or n > 0: AddAll writes a batch of more than n changes in parts of n, one transaction each
           GEN          \* TRUE: keep the history variable (behaviour generation); FALSE: model checking
 
 Trees  == 1..NT
@@ -112,7 +121,8 @@ Mk(n)      == Call("mk", n, 0, {}, "")
 InsState   == Call("insstate", 0, 0, {}, "")
 InsC(i, o) == Call("insc", i, o, {}, "")
 UpsH(t, hs, cs) == Call("upsh", t, cs, hs, "")
-InsA(i)    == Call("insa", i, 0, {}, "")
+InsA(i)    == Call("insa", i, 0, {i}, "")
+InsAS(S)   == Call("insa", 0, 0, S, "")            \* one Insert call with several records
 UpsA(i)    == Call("upsa", i, 0, {}, "")
 Del(t)     == Call("del", t, 0, {}, "")
 
@@ -123,14 +133,14 @@ Eff(d, k) ==
       [] k.c = "insstate" -> [d EXCEPT !.space = TRUE]
       [] k.c = "insc"     -> [d EXCEPT !.ord[k.a] = k.b]
       [] k.c = "upsh"     -> [d EXCEPT !.heads[k.a] = [on |-> TRUE, hs |-> k.s, cs |-> k.b]]
-      [] k.c = "insa"     -> [d EXCEPT !.acl = @ \cup {k.a}]
+      [] k.c = "insa"     -> [d EXCEPT !.acl = @ \cup k.s]
       [] k.c = "upsa"     -> [d EXCEPT !.aclHead = k.a]
       [] k.c = "del"      -> [d EXCEPT !.ord = [i \in Ids |-> IF U[i].on /\ U[i].tree = k.a THEN 0 ELSE @[i]]]
       [] OTHER            -> d
 
 \* an insert of a document that exists fails by itself (ErrDocExists), no fault needed
 NaturalFail(d, k) == \/ k.c = "insc" /\ d.ord[k.a] # 0
-                     \/ k.c = "insa" /\ k.a \in d.acl
+                     \/ k.c = "insa" /\ k.s \cap d.acl # {}
                      \/ k.c = "insstate" /\ d.space
 
 RECURSIVE FoldEff(_, _, _)
@@ -155,7 +165,14 @@ CreateProg(t) == <<Begin, InsC(t, 1), UpsH(t, {t}, t), Commit>>
 
 \* news: sequence of <<id, ord>> in insertion order
 Inserts(news) == [n \in 1..Len(news) |-> InsC(news[n][1], news[n][2])]
+\* a batch written in parts of at most n changes, one write transaction per part, the heads entry with the last part
+RECURSIVE SplitProg(_, _, _, _, _)
+SplitProg(t, news, hs, cs, n) ==
+    IF Len(news) <= n THEN <<Begin>> \o Inserts(news) \o <<UpsH(t, hs, cs), CommitL>>
+    ELSE <<Begin>> \o Inserts(SubSeq(news, 1, n)) \o <<CommitL>> \o SplitProg(t, SubSeq(news, n + 1, Len(news)), hs, cs, n)
+
 AddProg(t, news, hs, cs, def) ==
+    IF def # "pending" /\ DEV_SplitBatch > 0 /\ Len(news) > DEV_SplitBatch THEN SplitProg(t, news, hs, cs, DEV_SplitBatch) ELSE
     IF def = "pending"
       THEN <<Begin, InsC(t, 1), UpsH(t, {t}, t), Savepoint>> \o Inserts(news) \o <<UpsH(t, hs, cs), ReleaseL, Commit>>
       ELSE IF DEV_HeadsOutsideTx
@@ -171,7 +188,8 @@ DeleteProg(t) == <<Begin, Del(t), Commit>>
 (* ------------------------------------------------------------------ live objects *)
 ClosedTree == [st |-> "closed", hs |-> {}, root |-> 0, att |-> {}, mx |-> 0, def |-> "no"]
 \* obs / obsAcl: the heads the head-storage observers (head sync) were told last
-ClosedMem  == [space |-> FALSE, acl |-> 0, tr |-> [t \in Trees |-> ClosedTree], obs |-> [t \in Trees |-> {}], obsAcl |-> 0]
+\* acl = length of the live ACL list (its head), known = the record indices its id index answers HasHead for
+ClosedMem  == [space |-> FALSE, acl |-> 0, known |-> {}, tr |-> [t \in Trees |-> ClosedTree], obs |-> [t \in Trees |-> {}], obsAcl |-> 0]
 \* an observer that attaches to a stored space reads the stored heads first
 ObsFromDisk(m, d) == [m EXCEPT !.obs = [t \in Trees |-> IF d.heads[t].on THEN d.heads[t].hs ELSE {}], !.obsAcl = d.aclHead]
 \* headstorage.UpdateEntry -> observers, at the call (as the code does) or when the write transaction commits
@@ -192,7 +210,10 @@ FromDisk(d, t) ==
 \* the not-yet-created deferred storage serves its root only
 FreshDeferred(t) == [st |-> "open", hs |-> {t}, root |-> t, att |-> {t}, mx |-> 1, def |-> "pending"]
 
-NoOp == [kind |-> "none", t |-> 0, snap |-> FALSE, new |-> <<>>, set |-> {}, i |-> 0, prog |-> <<>>, pc |-> 0,
+\* ACL adds: i = record being written, lo = first record of the payload, more = records of the payload after i,
+\* batch = AddRawRecords (FALSE: AddRawRecord), cont = the next record of a batch (not a call of its own)
+NoOp == [kind |-> "none", t |-> 0, snap |-> FALSE, new |-> <<>>, set |-> {}, i |-> 0, lo |-> 0, more |-> 0,
+         batch |-> FALSE, cont |-> FALSE, prog |-> <<>>, pc |-> 0,
          retry |-> FALSE, fat |-> 0, fate |-> "ok"]
 Idle == op.kind = "none"
 
@@ -200,7 +221,7 @@ Idle == op.kind = "none"
 DiskProj(d) == [space |-> d.space, schema |-> Cardinality(d.schema),
                 heads |-> [t \in Trees |-> d.heads[t]],
                 stored |-> {i \in Ids : d.ord[i] # 0}, acl |-> d.acl, aclHead |-> d.aclHead]
-MemProj(m) == [space |-> m.space, acl |-> m.acl, obs |-> m.obs, obsAcl |-> m.obsAcl,
+MemProj(m) == [space |-> m.space, acl |-> m.acl, known |-> m.known, obs |-> m.obs, obsAcl |-> m.obsAcl,
                tr |-> [t \in Trees |-> [st |-> m.tr[t].st, hs |-> m.tr[t].hs, root |-> m.tr[t].root, def |-> m.tr[t].def]]]
 CallStr(k) == IF IsTxCall(k) THEN (IF k.c = "sp" THEN "sp" ELSE k.c)
               ELSE IF k.c = "mk" THEN SchemaNames[k.a]
@@ -213,7 +234,7 @@ ChangeProj(i) == [id |-> i, tree |-> U[i].tree, prev |-> U[i].prev, base |-> U[i
                   acl |-> U[i].acl]
 
 HistEntry(a, o, res, d, m) ==
-    [a |-> a, kind |-> o.kind, t |-> o.t, snap |-> o.snap, new |-> [n \in 1..Len(o.new) |-> o.new[n][1]], set |-> o.set, i |-> o.i,
+    [a |-> a, kind |-> o.kind, lo |-> o.lo, more |-> o.more, batch |-> o.batch, cont |-> o.cont, t |-> o.t, snap |-> o.snap, new |-> [n \in 1..Len(o.new) |-> o.new[n][1]], set |-> o.set, i |-> o.i,
      prog |-> ProgStr(o.prog), fat |-> o.fat, fate |-> o.fate, res |-> res, retry |-> o.retry,
      disk |-> DiskProj(d), mem |-> MemProj(m)]
 
@@ -235,10 +256,10 @@ Init ==
 (* ------------------------------------------------------------------ finishing an operation *)
 \* in-memory effects that happen only after the write succeeded
 MemOnOk(o, m) ==
-    CASE o.kind = "space"  -> [m EXCEPT !.space = TRUE, !.acl = 1, !.obs[1] = {1}, !.obsAcl = 1]
+    CASE o.kind = "space"  -> [m EXCEPT !.space = TRUE, !.acl = 1, !.known = {1}, !.obs[1] = {1}, !.obsAcl = 1]
       [] o.kind = "create" -> [m EXCEPT !.tr[o.t] = [st |-> "open", hs |-> {o.t}, root |-> o.t, att |-> {o.t}, mx |-> 1, def |-> "no"]]
       [] o.kind \in {"local", "remote"} -> [m EXCEPT !.tr[o.t].def = "no"]
-      [] o.kind = "acl"    -> [m EXCEPT !.acl = o.i]
+      [] o.kind = "acl"    -> [m EXCEPT !.acl = o.i, !.known = @ \cup 1..o.i]
       [] o.kind = "delete" -> [m EXCEPT !.tr[o.t].st = "deleted"]
       [] OTHER -> m
 
@@ -261,7 +282,13 @@ MemOnErr(o, m, d, pc) ==
 Finish(o, res, d, m) ==
     /\ op' = NoOp
     /\ last' = [res |-> res, retry |-> o.retry, kind |-> o.kind, snap |-> o.snap] /\ prov' = Prov(o)
-    /\ pend' = IF res = "injected" THEN [o EXCEPT !.pc = 0, !.prog = <<>>, !.fat = 0, !.fate = "ok", !.retry = TRUE] ELSE NoOp
+    /\ pend' = IF res = "injected"
+                 \* the caller re-issues the same input (a batch: the same payload; what is known is skipped)
+                 THEN [o EXCEPT !.pc = 0, !.prog = <<>>, !.fat = 0, !.fate = "ok", !.retry = TRUE, !.cont = FALSE]
+                 ELSE IF res = "ok" /\ o.kind = "acl" /\ o.more > 0
+                 \* AddRawRecords goes on with the next record of its payload: a transaction of its own
+                 THEN [o EXCEPT !.pc = 0, !.prog = <<>>, !.fat = 0, !.fate = "ok", !.cont = TRUE]
+                 ELSE NoOp
     /\ mem' = m
     /\ hist' = Log(HistEntry("op", o, res, d, m))
 
@@ -276,7 +303,12 @@ Start(o, prog, m1) ==
 
 \* an operation that returns without touching storage
 Immediate(o, res) ==
-    /\ pre' = disk /\ post' = IF o.kind = "delete" THEN Eff(disk, Del(o.t)) ELSE disk
+    /\ pre' = disk
+    /\ post' = IF o.kind = "delete" THEN Eff(disk, Del(o.t))
+               \* a batch add that reports success has its whole payload stored
+               ELSE IF o.kind = "acl" /\ o.batch /\ res = "ok"
+                      THEN [disk EXCEPT !.acl = @ \cup (o.lo..(o.i + o.more)), !.aclHead = Max({@, o.i + o.more})]
+               ELSE disk
     /\ op' = NoOp /\ pend' = NoOp
     /\ last' = [res |-> res, retry |-> o.retry, kind |-> o.kind, snap |-> o.snap] /\ prov' = Prov(o)
     /\ hist' = Log(HistEntry("op", o, res, disk, mem))
@@ -368,13 +400,25 @@ StartRemote(t, P, retry) ==
                 [mem EXCEPT !.tr[t] = m2])
        /\ UNCHANGED U
 
-StartAcl(i, retry) ==
-    /\ mem.space /\ mem.acl > 0 /\ i \in AclIdx /\ i > 1
-    /\ IF i <= mem.acl
-         THEN Immediate([Base("acl", 0, retry) EXCEPT !.i = i], "refused") /\ UNCHANGED U      \* ErrRecordAlreadyExists
-         ELSE /\ i = mem.acl + 1
-              /\ Start([Base("acl", 0, retry) EXCEPT !.i = i], AclProg(i),
-                       IF FIX_AclWriteFirst THEN mem ELSE [mem EXCEPT !.acl = i])
+\* AddRawRecord (batch = FALSE, lo = hi) / AddRawRecords (batch = TRUE) with the records lo..hi of the ACL log.
+\* AddRawRecords adds one record after the other, each with a transaction of its own, and skips the records its
+\* index knows (ErrRecordAlreadyExists is ignored); one spec operation per record, chained through `pend`.
+StartAcl(lo, hi, batch, cont, retry) ==
+    LET unknown == {j \in lo..hi : j \notin mem.known}
+        o == [Base("acl", 0, retry) EXCEPT !.lo = lo, !.batch = batch, !.cont = cont]
+    IN
+    /\ mem.space /\ mem.acl > 0 /\ lo > 1 /\ lo <= hi /\ hi \in AclIdx
+    /\ IF unknown = {}
+         THEN Immediate([o EXCEPT !.i = hi], IF batch THEN "ok" ELSE "refused") /\ UNCHANGED U   \* ErrRecordAlreadyExists
+         ELSE LET i == CHOOSE j \in unknown : \A k \in unknown : j <= k IN
+              /\ i = mem.acl + 1                                    \* the record applies to the live state
+              /\ IF batch /\ DEV_AclBatchOneTx
+                   \* seeded mutant: the ids are reserved first, one AddAll for all of them, nothing is taken back
+                   THEN /\ unknown = i..hi
+                        /\ Start([o EXCEPT !.i = hi], <<Begin, InsAS(unknown), UpsAL(hi), CommitL>>,
+                                 [mem EXCEPT !.known = @ \cup unknown])
+                   ELSE Start([o EXCEPT !.i = i, !.more = hi - i], AclProg(i),
+                              IF FIX_AclWriteFirst THEN mem ELSE [mem EXCEPT !.acl = i, !.known = @ \cup {i}])
               /\ UNCHANGED U
 
 StartDelete(t, retry) ==
@@ -391,7 +435,7 @@ Dispatch(o, retry) ==
       [] o.kind = "create" -> StartCreate(o.t, retry)
       [] o.kind = "local"  -> StartLocal(o.t, o.snap, retry)
       [] o.kind = "remote" -> StartRemote(o.t, o.set, retry)
-      [] o.kind = "acl"    -> StartAcl(o.i, retry)
+      [] o.kind = "acl"    -> StartAcl(o.lo, o.i + o.more, o.batch, o.cont, retry)
       [] o.kind = "delete" -> StartDelete(o.t, retry)
       [] OTHER -> FALSE
 
@@ -402,10 +446,12 @@ OpCreate  == Quiet /\ \E t \in Trees : StartCreate(t, FALSE)
 OpLocal   == Quiet /\ \E t \in Trees, s \in BOOLEAN : StartLocal(t, s, FALSE)
 OpLocalV  == Quiet /\ \E t \in Trees, s \in BOOLEAN : StartLocalRejected(t, s)
 OpRemote  == Quiet /\ \E t \in Trees : \E P \in SUBSET (OfTree(t) \ {t}) : StartRemote(t, P, FALSE)
-OpAcl     == Quiet /\ StartAcl(mem.acl + 1, FALSE)
+OpAcl     == Quiet /\ StartAcl(mem.acl + 1, mem.acl + 1, FALSE, FALSE, FALSE)
+OpAclBatch == Quiet /\ \E n \in 1..3 : StartAcl(mem.acl + 1, mem.acl + n, TRUE, FALSE, FALSE)
 OpDelete  == Quiet /\ \E t \in Trees : StartDelete(t, FALSE)
 \* the caller re-issues the operation that failed with a (non fatal) injected error
-OpRetry   == Idle /\ pend.kind # "none" /\ Dispatch(pend, TRUE)
+\* ... or AddRawRecords goes on with the next record of its payload
+OpRetry   == Idle /\ pend.kind # "none" /\ Dispatch(pend, pend.retry)
 
 (* ------------------------------------------------------------------ steps without storage writes *)
 Silent(a, t, d, m) == hist' = Log(HistEntry(a, [NoOp EXCEPT !.t = t], "ok", d, m))
@@ -447,7 +493,7 @@ AuthorAdd == \E t \in Trees, snap \in BOOLEAN : \E prev \in SUBSET OfTree(t) : A
 \* after a crash: spacestorage.New + BuildAclListWithIdentity on what is on disk
 Reopen ==
     /\ Idle /\ last.res = "crash" /\ ~mem.space /\ disk.space
-    /\ mem' = ObsFromDisk([ClosedMem EXCEPT !.space = TRUE, !.acl = disk.aclHead], disk)
+    /\ mem' = ObsFromDisk([ClosedMem EXCEPT !.space = TRUE, !.acl = disk.aclHead, !.known = disk.acl], disk)
     /\ last' = [last EXCEPT !.res = "reopened"]
     /\ Silent("reopen", 0, disk, mem')
     /\ UNCHANGED <<U, disk, tx, op, pre, post, pend, faults, prov>>
@@ -503,7 +549,7 @@ Crash ==
     /\ hist' = Log(HistEntry("op", [op EXCEPT !.fat = op.pc, !.fate = "crash"], "crash", disk, ClosedMem))
     /\ UNCHANGED <<U, disk, pre, post>>
 
-Next == OpSpace \/ OpCreate \/ OpLocal \/ OpLocalV \/ OpRemote \/ OpAcl \/ OpDelete \/ OpRetry
+Next == OpSpace \/ OpCreate \/ OpLocal \/ OpLocalV \/ OpRemote \/ OpAcl \/ OpAclBatch \/ OpDelete \/ OpRetry
         \/ OpenTree \/ OpenDeferred \/ AuthorAdd \/ Reopen \/ Step \/ Crash
 
 Spec == Init /\ [][Next]_vars
@@ -558,7 +604,7 @@ TreeAgrees(t) ==
       [] m.st = "deleted" -> Stored(disk, t) = {}
       [] OTHER -> TRUE
 LiveAgreesWithDisk ==
-    Idle => /\ (mem.acl > 0 => mem.acl = disk.aclHead)
+    Idle => /\ (mem.acl > 0 => (mem.acl = disk.aclHead /\ mem.known = disk.acl))
             /\ \A t \in Trees : TreeAgrees(t)
             /\ (mem.space => disk.space)
 
